@@ -10,7 +10,7 @@ THEOREMS = ['C10_net_writen', 'C10_literal_replies', 'C10_literal_checker_sound'
             'C10_multiline_writer', 'C10_sites_multiline', 'C10_reply_sequences', 'C10_dnstxt_clean', 'C10_nomail', 'C10_unpatched_refuted', 'C10_hole_sources']
 ENGINES = [dict(name='netio', c_sources=['netio_h.c'], extract='Extract/Extract_netio.v', driver='netio_driver.ml',
                 accepts=lambda c: c.startswith('aa ')),
-           dict(name='replysites', c_sources=['replysites_h.c', 'replysites_real.c', 'replysites_filters.c', 'replysites_owfat.c'],
+           dict(name='replysites', c_sources=['replysites_h.c', 'replysites_real.c', 'replysites_filters.c', 'replysites_owfat.c', 'replysites_tls.c', 'replysites_data.c'],
                 extract='Extract/Extract_replysites.v', driver='replysites_driver.ml', libs=('-lowfat', '-lssl', '-lcrypto'),
                 accepts=lambda c: c[:3] in ('c1 ', 'c2 ', 'c3 ', 'c4 ', 'c5 ', 'c6 '))]
 RULE = ('engine netio: cases = net_writen argument vectors: s[0] from the reply templates found in qsmtpd/**, 1-4 embedded strings of '
@@ -209,9 +209,24 @@ def _site_case(rng, func, els, line=0):
             elif h[1] == 'AuthList': vals.append(rng.choice([b' LOGIN PLAIN\r\n', b' PLAIN\r\n', b' LOGIN PLAIN CRAM-MD5\r\n']))
             elif h[1] == 'NumCRLF': vals.append(str(rng.choice([1, 1234567, 2 ** 32 - 1, 2 ** 63, 2 ** 64 - 1])).encode() + b'\r\n')
             else: return None
+    elif func == 'tls_out':
+        if len(holes) != 2: return None
+        vals.append(rng.choice([b'setting session id failed', b'rehandshake failed', b'connection failed']))
+        vals.append(_printable(rng, _len(rng, 1200)))
+    elif func == 'tls_err':
+        if holes: return None
+    elif func == 'smtp_data':
+        first = lits[0] if lits else b''
+        scen = [(b'more than one', 0), (b"'Date:' missing", 1), (b"'From:' missing", 2), (b'8bit character in message header', 3),
+                (b'contains 8bit', 4), (b'too many hops', 5), (b'Delivered-To', 6)]
+        hit = [k for t, k in scen if t in first]
+        if not hit or len(holes) != (1 if hit[0] == 0 else 0): return None
+        param = hit[0]
+        if holes:
+            vals.append(rng.choice([b'Date:', b'From:', b'Message-Id:']))
     else:
         return None
-    out = ['c1', R.hx(func.encode()), '%02x' % param]
+    out = ['c1', R.hx(func.encode()), '%02x' % param] if func != 'smtp_data' else ['c5', '%02x' % param]
     vi = 0
     for e in els:
         if e[0] == 'L':
@@ -251,7 +266,7 @@ def gen_sites(rng, tier):
     per = 45 if tier == 'quick' else 900
     out = []
     for key, rel, func, line, els in a['writen'] + a['multiline']:
-        for _ in range(per):
+        for _ in range(per if func not in ('smtp_data', 'tls_err') else 3):
             c = _site_case(rng, func, els, line)
             if c is None:
                 break
